@@ -433,9 +433,13 @@ CommitPrune(s) ==
 (* transient.Store.Commit: a fresh MemDB *)
 CommitTransient ==
     /\ Go /\ up /\ pc[TStore] = "todo"
-    /\ UNCHANGED <<conf, durable, up, rolled, bricked, hver, htok, work, wops, tver, tvers, cids, ghost>>
+    /\ UNCHANGED <<conf, durable, up, rolled, bricked, hver, htok, work, wops, tver, tvers, cids,
+                   blocks, committed, block, started, todo, crashes, dirty, budget, cplan>>
     /\ trans' = EmptyMap
     /\ pc' = [pc EXCEPT ![TStore] = "done"]
+    (* recording: how many LoadVersion calls the NEXT block will see is decided here, once per commit
+       (a step whose record is small; the steps that record observation tables have few successors) *)
+    /\ \E n \in LoadSet : lleft' = LoadsOf(n)
     /\ Rec([a |-> "tcommit", w |-> ""])
 
 (* rootmulti.Store.Commit after commitStores: commit info and latest marker in ONE batch *)
@@ -444,7 +448,7 @@ CommitFlush ==
     /\ pc[TStore] = "done"
     /\ \A s \in Stores : pc[s] = IF "PruneBeforeFlush" \in Dev THEN "done" ELSE "saved"
     /\ UNCHANGED <<conf, disk, up, rolled, bricked, work, wops, tver, tvers, trans, cids,
-                   blocks, committed, todo, crashes, dirty, cplan>>
+                   blocks, committed, todo, crashes, dirty, cplan, lleft>>
     /\ LET v == hver + 1 IN
        /\ cinfo' = Extend(cinfo, v, cids)
        /\ latest' = v
@@ -453,7 +457,6 @@ CommitFlush ==
     /\ pc' = [s \in AllStores |-> IF "PruneBeforeFlush" \in Dev \/ s = TStore THEN "idle" ELSE "post"]
     /\ block' = <<>> /\ started' = FALSE
     /\ \E b \in BudgetSet : budget' = b
-    /\ \E n \in LoadSet : lleft' = LoadsOf(n)
     /\ Rec([a |-> "flush", w |-> "flush", v |-> hver', exp |-> Obs',
             obs |-> IF "PruneBeforeFlush" \in Dev THEN FullObs' ELSE [none |-> TRUE]])
 
@@ -495,8 +498,9 @@ Reopen ==
               THEN block' = <<>> /\ started' = FALSE /\ todo' = <<>>
               ELSE block' = block /\ started' = started /\ todo' = block
            /\ \E b \in BudgetSet : budget' = IF b < Len(block') THEN Len(block') ELSE b
-           (* no LoadVersion excursions while an interrupted block awaits its re-execution *)
-           /\ \E n \in LoadSet : lleft' = IF started' THEN 0 ELSE LoadsOf(n)
+           (* no LoadVersion excursions in the first block of a fresh handle (nor while an interrupted
+              block awaits its re-execution) *)
+           /\ lleft' = 0
            /\ Rec([a |-> "reopen", exp |-> [ok |-> TRUE] @@ Obs', allowed |-> allowed,
                    after |-> crashes, obs |-> FullObs'])
 
